@@ -193,7 +193,7 @@ func zkOnce[X sigma.Statement, W sigma.Witness, A sigma.Statement, S sigma.State
 // zkChildRun is the child-process side of an isolated interactive run.
 func zkChildRun[X sigma.Statement, W sigma.Witness, A sigma.Statement, S sigma.State, Z sigma.Response](c *sigCase[X, W, A, S, Z], m, idx int) (bool, string) {
 	_, _, msgs := zkOnce(c, func(int, []byte) []byte { return nil }, false)
-	eds := enumerateEdits(msgs[m], bitsAll, false)
+	eds := enumerateEdits(msgs[m], zkMode(c.heavy), zkIdx(c.heavy))
 	if idx >= len(eds) {
 		return false, "HARNESS:edit index out of range"
 	}
@@ -258,7 +258,7 @@ func zkRun[X sigma.Statement, W sigma.Witness, A sigma.Statement, S sigma.State,
 	}
 	// structured messages (2: commitment a, 4: response z): every edit of their CBOR encoding
 	for _, m := range []int{2, 4} {
-		for idx, ed := range enumerateEdits(msgs[m], bitsAll, false) {
+		for idx, ed := range enumerateEdits(msgs[m], zkMode(c.heavy), zkIdx(c.heavy)) {
 			x.Case(fmt.Sprintf("%s/zk/msg%d/%s", c.name, m, ed.desc))
 			acc, st, _ := zkOnce(c, func(msg int, raw []byte) []byte {
 				if msg != m {
@@ -320,4 +320,19 @@ func nilClass(base, edited []string) string {
 		}
 	}
 	return "nil-component-removed"
+}
+
+// the interactive runs of the Paillier-sized protocols use the leaf-level bit alphabet and the index alphabet
+func zkMode(heavy bool) bitMode {
+	if heavy {
+		return bitsLSB
+	}
+	return bitsAll
+}
+
+func zkIdx(heavy bool) idxAlphabet {
+	if heavy {
+		return idx2
+	}
+	return idxAll
 }
